@@ -38,7 +38,9 @@ PROP = {
             "the thresholds and whole seconds (c12_bufevo_ms, a death of the child is bufsize-time-crash:<ms>); archive entries no honest sender "
             "produces (directory with a size, sizes <= 0 / 2^62, unknown path id, refused names) through the real recvFiles path and through the "
             "real writer directly; the line splitters of recvCheck and of the relay against gd_line_split; the progress display under a scripted "
-            "clock",
+            "clock. Round 5: pairs of numbers that bound each other are replaced together by the same hostile value (NAME size x HASH step, "
+            "SIZE line x HASH step, SIZE x DATA length, NUM x SIZE, bufsize x DATA length, ...: hostile-pair:<a>-<b>:<value>:<role>), and the "
+            "real recvPrefixHash is run with announced sizes up to 2^63-1 (hash-pair:size=..:step=..)",
     "trusted": ["modelled, not verified: encoding/json, zlib, zstd, base64 and the Go runtime on malformed input (exercised by the hostile group, not proved)",
                 "goroutines without recover are a structural fact (Gen/Skel_guards.recover_sites), not a theorem",
                 "totality of the progress display for unguarded steps and sizes is C20's theorem"],
